@@ -182,6 +182,32 @@ def subqueryComparisonEnv (wrapped : Bool) (c : Cfg) (op quantifier : String) (v
 def notInSubquery (wrapped : Bool) (c : Cfg) (v : Val) (xs : List Val) : Option Val :=
   (subqueryComparisonEnv wrapped c "EQ" "ANY" v xs).map sqlNot
 
+/-! ### _subquery_table: the per-subquery memo keyed by the outer-column values -/
+
+def assocGet {κ β} [DecidableEq κ] (k : κ) : List (κ × β) → Option β
+  | [] => none
+  | (k', b) :: rest => if k' = k then some b else assocGet k rest
+
+/-- `try: return cache[args]  except KeyError: table = self.execute(plan, scope); cache[args] = table` -/
+def memoStep {α κ β} [DecidableEq κ] (key : α → κ) (f : α → β) (cache : List (κ × β)) (a : α) : List (κ × β) × β :=
+  match assocGet (key a) cache with
+  | some b => (cache, b)
+  | none => ((key a, f a) :: cache, f a)
+
+/-- a correlated subquery evaluated once per outer row through the memo -/
+def memoRun {α κ β} [DecidableEq κ] (key : α → κ) (f : α → β) : List α → List (κ × β) → List β
+  | [], _ => []
+  | a :: as, cache => (memoStep key f cache a).2 :: memoRun key f as (memoStep key f cache a).1
+
+/-- how _compile_subquery turns `scope.external_columns` into the SUBQUERY_* argument list = the memo key
+    (pinned from the source by the translator) -/
+inductive SubqueryArgs where
+  /-- `list(scope.external_columns)`: every outer column the subquery reads, table-qualified -/
+  | allExternal
+  /-- anything else (e.g. de-duplicated by bare column name) -/
+  | other
+deriving DecidableEq, Repr
+
 /-- env.filter_nulls(func, empty_null) -/
 def filterNulls (f : List Val → Val) (emptyNull : Bool) (vs : List Val) : Val :=
   let filtered := vs.filter (!·.isNull)
